@@ -69,6 +69,30 @@ def run(chk):
     chk.extra["op_histogram"] = kinds
     for t, ops in hs[:2] + hs[-1:]:
         chk.sample({"history": ops[:16]})
+    # evaluator level: fresh qubits declared after objects owning qubits (own, inherited, registers) died read exactly their own preparation — handles stay distinct through index recycling
+    import qobjgen
+    qprogs, qout, qinc = qobjgen.run_family(chk.rng, 600 if chk.thorough else 120)
+    qbad = None
+    for qp, ql in zip(qprogs, qout):
+        chk.count(("qobj", qp.text) if ql.startswith("ok ") else None)
+        w = qobjgen.judge(qp, ql, "probe")
+        if w and qbad is None:
+            qbad = (qp, ql, w)
+    chk.extra["evaluator_level_programs"] = len(qprogs)
+    # corpus programs with their documented output (known findings are reported as such)
+    import evallib as _ev
+    cprogs = [o for _fn, o in framework.load_corpus("C03") if "source" in o]
+    if cprogs:
+        _l, cimpl, _m, _i = _ev.run_programs([(o["source"], []) for o in cprogs], with_model=False)
+        for o, a in zip(cprogs, cimpl):
+            got = _ev.split_result(a).get("echo_lines") if a.startswith("ok ") else [a[:80]]
+            if got != o["expected"]:
+                chk.violation("corpus program prints %s, distinct handles give %s" % (got, o["expected"]),
+                              {"match_key": o.get("known"), "source": o["source"], "kind": "corpus"})
+    if qbad:
+        qp, ql, w = qbad
+        chk.violation("quantum object program (constant draw %.1f): %s\n%s" % (qp.draw, w, qp.text[-900:]),
+                      {"source": qp.text, "draw": qp.draw, "kind": "qobj", "clause": "probe"})
     if bad:
         hi, i, why = bad
         ops = hs[hi][1][:i + 1]
@@ -79,4 +103,12 @@ def run(chk):
 
 
 def replay(path):
+    import json as _json
+    _o = _json.load(open(path))
+    if _o.get("kind") == "qobj":
+        import evallib, qobjgen
+        from framework import run_guarded
+        out, _ = run_guarded(evallib.harness(), ["run %s 1 %s" % (evallib.hx(_o["source"]), evallib.draws_arg([_o["draw"]] * 400))])
+        print(_o["source"]); print(" ->", evallib.split_result(out[0]).get("echo_lines", out[0][:200]), evallib.split_result(out[0]).get("tracked"))
+        return 1
     return simlib.generic_replay(path, "state-invariant oracle", oracle_fails)
